@@ -67,6 +67,29 @@ def unlabeledFrom : Nat → List Bool → List Nat
 
 def unlabeledIdx (y : List Bool) : List Nat := unlabeledFrom 0 y
 
+/-! ## `_validate_data` / `_transform_candidates`: how candidates are addressed -/
+
+/-- insertion into a sorted list without duplicates (`np.unique` = sort + dedupe) -/
+def insertUnique (x : Nat) : List Nat → List Nat
+  | [] => [x]
+  | y :: ys => if x < y then x :: y :: ys else if x = y then y :: ys else y :: insertUnique x ys
+
+/-- `np.unique(indices)` -/
+def uniqueSorted (l : List Nat) : List Nat := l.foldr insertUnique []
+
+inductive CandSpec where
+  | none                      -- candidates=None
+  | idx (l : List Nat)        -- index array
+  | rows (k : Nat)            -- k feature rows
+  deriving Repr
+
+/-- the `mapping` computed by `_validate_data` + `_transform_candidates` -/
+def transformCandidates (c : CandSpec) (y : List Bool) : Option (List Nat) :=
+  match c with
+  | .none => some (unlabeledIdx y)
+  | .idx l => some (uniqueSorted l)
+  | .rows _ => Option.none
+
 /-! ## Specification deciders (run on implementation outputs) -/
 
 section Spec
